@@ -1,13 +1,13 @@
 package main
 
 import (
-	"sync"
 	"errors"
 	"fmt"
 	"io"
 	"math/rand"
 	"strconv"
 	"strings"
+	"sync"
 
 	"github.com/folbricht/desync"
 )
